@@ -530,6 +530,10 @@ func (f *FakeServer) ServeHTTP(w http.ResponseWriter, r *http.Request) {
 		Params json.RawMessage `json:"params"`
 	}
 	json.Unmarshal(body, &m)
+	if f.StallPosts.Load() {
+		<-r.Context().Done() // read and never answered, until the peer gives up
+		return
+	}
 	method, kind := classifyRPC(body)
 	act := f.plan(method, kind)
 	if f.Stateful && act.Kind != "http" {
